@@ -3,6 +3,7 @@ package main
 // Generators for C08/C15/C16: well-formed go.mod / go.work starting files and op sequences.
 
 import (
+	"strconv"
 	"strings"
 
 	"golang.org/x/mod/modfile"
@@ -19,8 +20,36 @@ var edToolchains = []string{"go1.21.0", "go1.22.1", "default", "go1.23rc1", "go1
 var edGodebugKeys = []string{"panicnil", "http2client", "default", "asynctimerchan"}
 var edGodebugVals = []string{"1", "0", "go1.21", "x=y"}
 var edDirPaths = []string{"./a", "./b", "../c", "/abs/d", "./a/b", "."}
+// edUseDirPaths: pool of go.work `use` directories, for the starting file AND for the arguments of
+// AddUse / AddNewUse / DropUse / SetUse. Input class added for the gap "use directory that needs quoting":
+// besides the plain directories it holds directories for which modfile.MustQuote is true (space, `//`, `/*`,
+// single/double quote, bracket/brace/comma in a longer name, non-printable rune) and a non-ASCII printable one.
+// Such a key exists in file syntax only as a quoted token while Use.Path is the unquoted string, so every site
+// that rewrites or re-creates a line from the typed entry must re-quote it. The pool used to hold only plain
+// identifiers, so an update of an ALREADY PRESENT quoting-needed use entry (from the starting file, or added
+// earlier in the history; edPickKey repeats live keys with 65%) was never drawn.
+var edUseQuotedDirPaths = []string{"./my mod", "./a//b", "./a/*b", "./it's", "./q\"d", "./x[1]", "./p(q)", "./a,b", "./{t}", "./a\tb", "./b`c"}
+var edUseDirPaths = append(append([]string{}, edDirPaths...), append([]string{"./d\u00e9j\u00e0", "[", ","}, edUseQuotedDirPaths...)...)
+
+// edPickUseDir: a use directory from the pool; about one in three draws needs quoting.
+func edPickUseDir(r *Rand) string {
+	if r.Chance(30) {
+		return r.Pick(edUseQuotedDirPaths)
+	}
+	return r.Pick(edUseDirPaths)
+}
+
 var edModulePaths = []string{"example.com/m", "example.com/m", "example.com/m/v2"}
-var edRationales = []string{"", "", "bad", "broken build", "two\nlines", "see issue 1"}
+// edRationales: AddRetract rationale texts. Input class added for the gap "rationale with an EMPTY line": a text of
+// two paragraphs (blank line in the middle), and a blank line at either end. AddRetract turns every line of the
+// text into one comment of the new line; an empty line is the one shape where "a comment line" and "a blank line"
+// can be confused: inside a block a blank line stays with the following line, at top level it ENDS the comment
+// group, so the typed Rationale and the strict re-parse can only diverge on this shape — and only once the
+// retraction stands as a single top-level line (first retraction of the file, or its block collapsed by
+// DropRetract + Cleanup; both placements are frequent in the random histories, and swept in c15.go). The pool used
+// to hold one-paragraph texts only ("two\nlines" has no empty line).
+var edRationales = []string{"", "", "bad", "broken build", "two\nlines", "see issue 1",
+	"published by accident\n\nuse the next one", "one\n\ntwo\nthree", "\nblank first", "blank last\n"}
 var edComments = []string{"// c1", "// note", "//x", "// keep me", "//", "// indirect", "// Deprecated: gone", "// indirect; because"}
 var edReqSuffix = []string{"// indirect", "// indirect", "// indirect", "// indirect", "// indirect; reason", "//indirect", "// indirect;", "// note", "//", "// indirect;x", "// Indirect", "//\tindirect"}
 
@@ -114,7 +143,11 @@ func (g *edFG) args(kind string, modPath string) string {
 	case "godebug":
 		return r.Pick(edGodebugKeys) + "=" + r.Pick(edGodebugVals)
 	case "use":
-		return g.tok(r.Pick(edDirPaths))
+		p := edPickUseDir(r)
+		if modfile.MustQuote(p) {
+			return strconv.Quote(p) // the only file syntax for such a directory
+		}
+		return g.tok(p)
 	}
 	return ""
 }
@@ -278,7 +311,7 @@ func edGenUseList(r *Rand, cur *edDirs) []edEnt {
 	seen := map[string]bool{}
 	n := r.Intn(5)
 	for i := 0; i < n; i++ {
-		p := edPickKey(r, cur, edUse, 0, edDirPaths)
+		p := edPickKey(r, cur, edUse, 0, []string{edPickUseDir(r)})
 		if seen[p] {
 			continue
 		}
@@ -351,11 +384,11 @@ func edGenOp(r *Rand, cur *edDirs, work bool) edOp {
 		case 5:
 			return edOp{Name: "dropgodebug", A: []string{edPickKey(r, cur, edGodebug, 0, edGodebugKeys)}}
 		case 6, 7:
-			return edOp{Name: "use", A: []string{edPickKey(r, cur, edUse, 0, edDirPaths), r.Pick([]string{"", "example.com/m"})}}
+			return edOp{Name: "use", A: []string{edPickKey(r, cur, edUse, 0, []string{edPickUseDir(r)}), r.Pick([]string{"", "example.com/m"})}}
 		case 8:
-			return edOp{Name: "newuse", A: []string{edPickKey(r, cur, edUse, 0, edDirPaths), ""}}
+			return edOp{Name: "newuse", A: []string{edPickKey(r, cur, edUse, 0, []string{edPickUseDir(r)}), ""}}
 		case 9:
-			return edOp{Name: "dropuse", A: []string{edPickKey(r, cur, edUse, 0, edDirPaths)}}
+			return edOp{Name: "dropuse", A: []string{edPickKey(r, cur, edUse, 0, []string{edPickUseDir(r)})}}
 		case 10, 11:
 			return edOp{Name: "setuse", List: edGenUseList(r, cur)}
 		case 12, 13:
